@@ -419,16 +419,17 @@ static void wl_big_inputs(struct ctx *c)
 }
 static void wl_double_format(struct ctx *c)
 {
-	struct json_object *d = json_object_new_double(0.5); int rc; const char *s;
+	struct json_object *d = json_object_new_double(0.5); int rc; const char *s; char before[64];
 	json_c_set_serialization_double_format(c->param & 1 ? "%.3f" : NULL, JSON_C_OPTION_GLOBAL);
 	if (c->param & 2) json_c_set_serialization_double_format("%.2f", JSON_C_OPTION_THREAD);
+	snprintf(before, sizeof before, "%s", json_object_to_json_string_ext(d, 0));   /* what this thread prints before the change */
 	ARM(c); rc = json_c_set_serialization_double_format("%.5f", c->param & 4 ? JSON_C_OPTION_THREAD : JSON_C_OPTION_GLOBAL); DISARM(c);
 	if (rc < 0) c->failed = 1;
 	/* whatever happened, serializing a double afterwards must be safe and use the new or the previous format */
 	s = json_object_to_json_string_ext(d, 0);
 	if (!s) bad(c, "double-unserializable-after-format-change");
 	else if (!c->failed) ob_puts(&c->res, s);
-	else if (strcmp(s, "0.5") && strcmp(s, "0.500") && strcmp(s, "0.50")) bad(c, "format-after-failed-change:%s", s);
+	else if (strcmp(s, before)) bad(c, "failed-format-change-changed-the-format:%s->%s", before, s);
 	json_object_put(d);
 	json_c_set_serialization_double_format(NULL, JSON_C_OPTION_THREAD);
 	json_c_set_serialization_double_format(NULL, JSON_C_OPTION_GLOBAL);
